@@ -11,7 +11,7 @@ program = {
   "sr": "call" | "next" | "never",           when start_response is called
   "steps": [[op, arg], ...]                  op in write / yield / raise / wait / set / sleep
   "ret": "list" | "tuple" | "gen" | "iterlen" | "fw_seek" | "fw_noseek" | "fw_seek_noclose"
-  "fw": {"content": latin-1 str, "pos": int, "block": int}   for the fw_* kinds
+  "fw": {"content": latin-1 str, "pos": int, "block": int, "real": bool (a file of the operating system)}   for the fw_* kinds
   "close": "none" | "ok" | "raise"           close() on the returned iterable
   "exc": "Exception" | "OSError" | "BaseException"   class used by raise steps
   "first": {"status", "headers", "cl"}       optional: a first start_response call that is then replaced
@@ -83,6 +83,39 @@ class RecFile(io.BytesIO):
             # a file object whose close() fails (the call itself is what counts)
             raise OSError(5, "app-failure-close-%s" % (self._rid,))
         super().close()
+
+
+class RealRecFile:
+    """seekable file of the operating system (it has a descriptor: fstat() and sendfile() apply); records close()"""
+
+    def __init__(self, data, log, rid):
+        import tempfile
+
+        self._f = tempfile.TemporaryFile()
+        self._f.write(data)
+        self._f.flush()
+        self._f.seek(0)
+        self._log = log
+        self._rid = rid
+
+    def fileno(self):
+        return self._f.fileno()
+
+    def seekable(self):
+        return True
+
+    def seek(self, *a):
+        return self._f.seek(*a)
+
+    def tell(self):
+        return self._f.tell()
+
+    def read(self, n=-1):
+        return self._f.read(n)
+
+    def close(self):
+        self._log.add("file-close", self._rid)
+        self._f.close()
 
 
 class NoSeekFile:
@@ -244,7 +277,10 @@ class Run:
                         self.do_step(op, arg, lazy=False)
                 fw = p.get("fw", {})
                 data = s2b(fw.get("content", ""))
-                if ret == "fw_seek":
+                if ret == "fw_seek" and fw.get("real"):
+                    f = RealRecFile(data, self.log, self.rid)
+                    f.seek(fw.get("pos", 0))
+                elif ret == "fw_seek":
                     f = RecFile(data, self.log, self.rid, close_raises=bool(fw.get("close_raises")))
                     f.seek(fw.get("pos", 0))
                 elif ret == "fw_noseek":
